@@ -38,6 +38,30 @@ CHECKS = {
         note="Trusted: executor + z3 feasibility answers (an 'unknown' is reported, never ignored); the oracle (orbits of the "
              "minor/major symmetries and the Voigt table quoted in the property). Indices outside -3..12 are outside the claim.",
         design="3/C10"),
+    "C08": dict(
+        engine="symnum+z3",
+        technique="relations captured from the real fill_cij at the lstsq boundary; two subspace inclusions per crystal system decided "
+                  "by z3 over the 21 tensor components (exact coefficients in Q(sqrt 3)); real fill_cij symbolically executed on "
+                  "invariant tables with an exact least-squares stub",
+        text="Exact for all real tensors: per system z3 proves relations |= every Laue-invariance equation and invariance |= every "
+             "parsed relation (both inclusions of subspaces of R^21). Bounded for the fill part: supplied-set families and 1-3 rows, "
+             "each output column proved equal to the invariant tensor's component.",
+        note="Trusted: the Laue generators written in the harness (standard setting), sympy's exact pseudo-inverse as the lstsq "
+             "specification (LAPACK's numerical rank decision is outside), the tensor expansion map. Non-vanishing components are "
+             "assumed not to lie within drop_atol of zero at every volume (recorded cut).",
+        design="3/C08"),
+    "C09": dict(
+        engine="symnum+z3",
+        technique="forking symbolic execution of the real fill_cij on free symbolic tables (exact least-squares stub); per path z3 "
+                  "decides 'raises <=> refusal condition' stated with exact rank and residual, out == least-squares solution, "
+                  "drop <=> all rows below tolerance; nlsat lemma for the sqrt(atol) bound; configuration twins replayed concretely",
+        text="Bounded solver verdict: for 8 systems x supplied-set families (sufficient and insufficient) x 4 flag settings, every "
+             "path of the real function is shown to raise exactly when the refusal condition holds for all table values on that "
+             "path; accepted tables are the exact least-squares solution (so no supplied value or relation moves by more than "
+             "sqrt(residual_atol)); order / case / pass-through / idempotence identities; dtype, cwd and relation-path twins concrete.",
+        note="Trusted: exact-LSQ stub as the contract of numpy.linalg.lstsq; the twins (dtype, working directory, file path) are "
+             "concrete runs, not solver results. Subsets of supplied components outside the listed families are outside the claim.",
+        design="3/C09"),
 }
 
 NOT_APPLICABLE = {
